@@ -13,7 +13,8 @@ check("C02", "exploration", "runtime monitoring: independent stream parser on ev
 check("C03", "exploration", "runtime monitoring: over-read monitor at the transport, differential whole-vs-fragmented runs, on-the-wire corruption injection",
       "The transport knows where the current device packet ends and checks every bulk_read request against it; each scenario is re-run under 1-byte/random/n-1 "
       "fragmentation with empty reads and with a forced read boundary at every offset of the device byte stream, and must give identical results and host packets; "
-      "single byte/bit payload and checksum-field corruptions and unknown command words must raise the documented errors.",
+      "single byte/bit payload and checksum-field corruptions and unknown command words must raise the documented errors; a damaged packet among interleaved "
+      "streaming generators is never handed to anybody, whoever reads it; packets without a payload may carry any checksum word; slow device on a slow link (payloads in a dozen fragments).",
       "Trusted: simulator determinism across the paired runs (same seed, production of device packets independent of read sizes).",
       "DESIGN.md section 4 C03")
 check("C04", "exploration", "runtime monitoring: per-stream protocol state machine over both packet directions, closure check at API return",
@@ -100,7 +101,8 @@ check("C18", "exploration", "runtime monitoring on real loopback sockets: both e
 check("C20", "exploration", "runtime monitoring through a fake usb1 backend injected via sys.modules: backend call log, endpoint/timeout/claim-order monitors, error injection at every transfer index, session oracle",
       "The USB transport (never executed by the repository's suite) runs against a scripted libusb backend wired to the device simulator; every backend call is logged and "
       "checked (claim before transfer, endpoint direction, millisecond timeouts, read sizes), backend errors are injected at every transfer index of a device session, and whole "
-      "scenarios through AdbDeviceUsb must equal the in-memory runs.",
+      "scenarios through AdbDeviceUsb must equal the in-memory runs; a quarter of the direct cases keep a second ADB device with another endpoint layout connected "
+      "meanwhile, and any call on a closed libusb handle is fatal in the fake.",
       "Trusted: vlib/fakeusb1.py as the specification of a conforming python-libusb1. Runs in its own process per shard because the module opens a USBContext at import.",
       "DESIGN.md section 4 C20")
 check("C06", "exploration", "runtime monitoring under a controlled (baton-passing) scheduler over real threads / asyncio tasks: bounded-exhaustive schedule enumeration by re-execution + random/PCT schedules with "
